@@ -123,6 +123,21 @@ func (w *h4World) start(k int, failAt int) {
 	}()
 }
 
+// startNoWait: a fire-and-forget transaction (ignoreResult, as Close's Refresh(0)): the caller gets only the
+// outcome of the first write; retransmissions, the response and the final time-out are handled with nobody waiting
+func (w *h4World) startNoWait(k int, failAt int) {
+	if failAt >= 0 {
+		w.mu.Lock()
+		w.failAt[k] = failAt
+		w.mu.Unlock()
+	}
+	w.started[k] = true
+	msg, _ := stun.Build(stun.NewTransactionIDSetter(tidOf(k)), stun.BindingRequest)
+	if _, err := w.c.PerformTransaction(msg, w.srv.addr, true); err != nil {
+		w.add(fmt.Sprintf("done %d writefailed %d", k, w.ms()))
+	}
+}
+
 func (w *h4World) respond(k int) {
 	m, _ := stun.Build(stun.NewTransactionIDSetter(tidOf(k)), stun.BindingSuccess, &stun.XORMappedAddress{IP: net.IPv4(10, 0, 0, 2), Port: 4000})
 	_, _ = w.srv.WriteTo(m.Raw, w.cpc.addr)
@@ -241,7 +256,11 @@ func TestVerifH4(t *testing.T) {
 					}
 					k := next
 					next++
-					w.op(fmt.Sprintf("tstart %d %d %s", k, rto, failS(fail)), func() { w.start(k, fail) })
+					if rng.Intn(4) == 0 {
+						w.op(fmt.Sprintf("tstart %d %d %s nowait", k, rto, failS(fail)), func() { w.startNoWait(k, fail) })
+					} else {
+						w.op(fmt.Sprintf("tstart %d %d %s", k, rto, failS(fail)), func() { w.start(k, fail) })
+					}
 				case r < 55:
 					k := 1 + rng.Intn(next+1) // pending, finished, or never started ids
 					w.op(fmt.Sprintf("tresp %d", k), func() { w.respond(k) })
@@ -260,6 +279,32 @@ func TestVerifH4(t *testing.T) {
 				}
 			}
 			w.op("tadv 30000", func() { time.Sleep(30 * time.Second) })
+			w.size()
+			w.finish()
+		})
+	}
+	// directed: fire-and-forget transactions — never answered, answered on the 3rd copy, a failing retransmission
+	for _, variant := range []string{"silent", "answered", "rtxfail", "firstfail"} {
+		synctest.Test(t, func(t *testing.T) {
+			w := newH4World(vt, 200*time.Millisecond)
+			vt.Op("tnew")
+			vt.Obs("ok")
+			switch variant {
+			case "silent":
+				w.op("tstart 1 200 - nowait", func() { w.startNoWait(1, -1) })
+			case "answered":
+				w.op("tstart 1 200 - nowait", func() { w.startNoWait(1, -1) })
+				w.op("tadv 700", func() { time.Sleep(700 * time.Millisecond) })
+				w.op("tresp 1", func() { w.respond(1) })
+			case "rtxfail":
+				w.op("tstart 1 200 2 nowait", func() { w.startNoWait(1, 2) })
+			case "firstfail":
+				w.op("tstart 1 200 0 nowait", func() { w.startNoWait(1, 0) })
+			}
+			w.size()
+			w.op("tadv 9000", func() { time.Sleep(9 * time.Second) })
+			w.size()
+			w.op("tresp 1", func() { w.respond(1) }) // a late / duplicate answer is ignored
 			w.size()
 			w.finish()
 		})
